@@ -46,23 +46,8 @@ pub fn check_input(prop: &str, p: &Prog, a: &[E], b: &[E], s: i32, scheds: &[Sch
         }
         st.outcome(&(p.name, &fin));
         let input = fmt_input(a, b, s, p.uses_b, p.uses_s);
-        if let Some(exp) = &expect {
-            if &fin != exp {
-                let (again, _) = run(p, sc);
-                if again != fin {
-                    machinery(&format!("{}: non-reproducing result on {:?}", p.name, sc));
-                }
-                st.violation(
-                    format!("{prop}:{}:reference", p.name),
-                    format!("program `{}` on input {input}: schedule {} yields {} but the iterator-semantics reference is {}",
-                        p.desc, sc.to_json(), fin.to_json(), exp.to_json()),
-                    json!({"kind": "reference", "program": p.name, "schedules": [sc.to_json()], "expected": exp.to_json()}),
-                );
-                return false;
-            }
-        }
         match &base {
-            None => base = Some((fin, sc)),
+            None => base = Some((fin.clone(), sc)),
             Some((b0, s0)) => {
                 if &fin != b0 {
                     let (again, _) = run(p, sc);
@@ -78,6 +63,21 @@ pub fn check_input(prop: &str, p: &Prog, a: &[E], b: &[E], s: i32, scheds: &[Sch
                     );
                     return false;
                 }
+            }
+        }
+        if let Some(exp) = &expect {
+            if &fin != exp {
+                let (again, _) = run(p, sc);
+                if again != fin {
+                    machinery(&format!("{}: non-reproducing result on {:?}", p.name, sc));
+                }
+                st.violation(
+                    format!("{prop}:{}:reference", p.name),
+                    format!("program `{}` on input {input}: schedule {} yields {} but the iterator-semantics reference is {}",
+                        p.desc, sc.to_json(), fin.to_json(), exp.to_json()),
+                    json!({"kind": "reference", "program": p.name, "schedules": [sc.to_json()], "expected": exp.to_json()}),
+                );
+                return false;
             }
         }
     }
